@@ -2543,8 +2543,13 @@ impl LineBuf {
 							MotionKind::Onto(pos.get())
 						}
 						Direction::Backward => {
-							let (start,end) = ordered(self.cursor.get(),pos.get());
-							MotionKind::Inclusive((start,end))
+							if self.is_selecting() {
+								// In visual mode 'ge' moves the cursor; the selection follows from its anchor
+								MotionKind::On(pos.get())
+							} else {
+								let (start,end) = ordered(self.cursor.get(),pos.get());
+								MotionKind::Inclusive((start,end))
+							}
 						}
 					}
 				} else {
